@@ -30,7 +30,7 @@ import (
 
 func main() { kit.Main(kit.World{Name: "fsworld", Run: run, Enum: enumerate}) }
 
-var sizes = []int{0, 1, 4095, 32768, 32769, 100000, 1 << 20, sparseSize}
+var sizes = []int{0, 1, 4095, 32768, 32769, 65536, 100000, 1 << 20, sparseSize}
 
 // sparseSize: a source of three copy blocks whose middle block is all zeros
 // (what a sparse-aware copy would skip)
